@@ -242,14 +242,15 @@ Definition pass_a (cm : callmap) (d : dialect) (l : list string) : list string :
 (* ------------------------------------------------------------------------- *)
 (** pass B: [= ANY ( x )] -> [IN ( x )] *)
 
+Definition is_any_redex (x y z : string) : bool := (x =? "=") && (y =? "ANY") && (z =? "(").
+
 Fixpoint any_in (l : list string) : list string :=
   match l with
   | [] => []
   | x :: r =>
     match r with
     | y :: ((z :: _) as r2) =>
-      if (x =? "=") && (y =? "ANY") && (z =? "(") then "IN" :: any_in r2
-      else x :: any_in r
+      if is_any_redex x y z then "IN" :: any_in r2 else x :: any_in r
     | _ => x :: any_in r
     end
   end.
@@ -271,8 +272,8 @@ Definition guard_keywords : list string :=
 Definition keep (t : string) : bool :=
   is_plain_ident t || is_quoted_lit t || mem t cmp_ops || mem t guard_keywords.
 
-(** placeholder binding alone: the only thing besides keyword case that may produce or remove
-    a [keep] token *)
+(** placeholder binding (and the unquoting of a quoted plain identifier) alone: besides keyword case,
+    the only rules that can produce or remove a [keep] token *)
 Definition resolve_tok (d : dialect) (t : string) : list string :=
   match t with
   | EmptyString => [t]
@@ -282,6 +283,7 @@ Definition resolve_tok (d : dialect) (t : string) : list string :=
       | Some e => bind_arg e
       | None => [t]
       end
+    else if ((c =? """")%char || (c =? "`")%char) then [unquote t]
     else [t]
   end.
 
@@ -337,6 +339,19 @@ Fixpoint inline (rounds : nat) (names : list string) (tbl : list (string * list 
   | O => l
   | S n => inline n names tbl (inline_once names tbl l)
   end.
+
+(** the SQL statements of a skeleton, in order *)
+Fixpoint stmts_aux (cur : option (list string)) (l : list string) : list (list string) :=
+  match l with
+  | [] => match cur with Some c => [rev c] | None => [] end
+  | t :: r =>
+    match cur with
+    | Some c => if t =? "#endstmt" then rev c :: stmts_aux None r else stmts_aux (Some (t :: c)) r
+    | None => if String.prefix "#stmt:" t then stmts_aux (Some []) r else stmts_aux None r
+    end
+  end.
+
+Definition stmts_of (l : list string) : list (list string) := stmts_aux None l.
 
 (** fragments of the table of listed differences are written as one string: tokens separated by single
     spaces; a space inside [{ .. }] (Go text) does not separate *)
